@@ -723,7 +723,8 @@ impl PreferenceManager {
             let is_decimal_separators_changed = key == "DecimalSeparator" && current_decimal_separator != value;
             let is_language_changed = key == "Language" && self.user_prefs.prefs.get("Language").unwrap().as_str().unwrap() != value;
             self.user_prefs.prefs.insert(key.to_string(), Yaml::String(value.to_string()));
-            if is_decimal_separators_changed || (current_decimal_separator == "Auto" && is_language_changed) {
+            // the language matters also when DecimalSeparator is given: the country decides whether ' is a block separator
+            if is_decimal_separators_changed || is_language_changed {
                 // a little messy about the language due immutable and mutable borrows)
                 let language = self.user_prefs.prefs.get("Language").unwrap_or(&DEFAULT_LANG).clone();
                 let language = language.as_str().unwrap();
